@@ -10,7 +10,8 @@ void vh_case_end(void);
 /* environments (C10): vh_npass = 2 runs every case twice in the same process - a muted warm-up pass that
  * leaves freed blocks of exactly the sizes the case needs in the block cache, then (after filling every
  * cached block with ones) the logged pass, with the same random stream */
-extern int vh_npass, vh_pass;
+extern int vh_npass;
+extern __thread int vh_pass;
 void vh_pass_begin(void);
 #define VH_CASE(idx) if (vh_case_fork(idx)) { for (vh_pass = vh_npass; vh_pass > 0; vh_pass--) { vh_pass_begin();
 #define VH_CASE_END } vh_case_end(); }
@@ -42,4 +43,7 @@ int fam_alloc(const vh_args_t *a);
 int fam_fault(const vh_args_t *a);
 int fam_io(const vh_args_t *a);
 int fam_baddims(const vh_args_t *a);
+int fam_threads(const vh_args_t *a);
+int fam_omp(const vh_args_t *a);
+void vh_fill_profile(mzd_t *M, int style);
 #endif
